@@ -3,7 +3,9 @@
 from __future__ import annotations
 
 import dataclasses
+from decimal import Decimal
 from enum import Enum
+from fractions import Fraction
 
 from checks.c05 import live_service_classes
 from vlib import apci_gen as G
@@ -25,15 +27,15 @@ TECHNIQUE = (
 )
 LEVEL_TEXT = (
     "Every concrete service class found by walking APCI.__subclasses__(); baseline instances come from decoding hand-written valid frames. "
-    "Each int field takes 0..4098, -1, -2, 2^k-1/2^k/2^k+1 for k<=32, 2^16+-1, 2^24+-1, 2^32+-1, -2^31; each bytes field every length 0..20 "
+    "Each int field takes non-integral numerics (x.5 floats, 0.999, -0.5, nan, inf, Fraction, Decimal) and 0..4098, -1, -2, 2^k-1/2^k/2^k+1 for k<=32, 2^16+-1, 2^24+-1, 2^32+-1, -2^31; each bytes field every length 0..20 "
     "(random, zero, 0xFF and other all-equal content); list fields every length 0..8 distinct, the same element 2..8 times (identical and "
     "equal-but-distinct objects), duplicates at start/middle/end, maximum length and beyond with 2/3/6 distinct values; bool/enum/address/list/DPT payload/SCF fields their domains; nested SecureData byte fields every length 0..20; "
     "every value both through the constructor and by assignment to a valid object after construction; the other fields at the baseline and (quick x3, thorough x20) at random values that round-trip on their own. Exploration: values beyond the sweep are not tried."
 )
 LEVEL_NOTE = (
     "Trusted: CPython, struct, the valid frames of vlib/apci_gen.py. Judged: if to_knx() returns, the PDU must decode (APCI.from_knx) to an "
-    "object equal to the original. A refusal is any exception (class counted, not judged). Values outside a field's declared type (ints for "
-    "bool/enum fields, non-members) are not offered. The three A_RouterStatus_* stubs only have to refuse."
+    "object equal to the original. A refusal is any exception (class counted, not judged). Non-integral numerics are offered to every int field (they do not fit a wire field: refuse, never "
+    "truncate); other values outside a field's declared type (ints for bool/enum fields, non-members) are not offered. The three A_RouterStatus_* stubs only have to refuse."
 )
 SHARDS = {"quick": 1, "thorough": 16}
 TIMEOUT = {"quick": 240, "thorough": 1500}
@@ -43,6 +45,11 @@ INT_FULL = (
     + [-1, -2, -(2**31)]
     + sorted({v for k in range(13, 33) for v in (2**k - 1, 2**k, 2**k + 1)} | {2**16 - 1, 2**16 + 1, 2**24 - 1, 2**24 + 1, 2**32 - 1, 2**32 + 1})
 )
+# numerics that are not integers: they do not fit any wire field and must be refused, never truncated
+NON_INTEGRAL = [
+    0.5, 0.999, 1.5, 5.5, 14.5, 62.5, 254.5, 4094.5, 65534.5, -0.5, -1.5, 1e-9, float("nan"), float("inf"), float("-inf"),
+    Fraction(7, 2), Fraction(1, 3), Fraction(-1, 2), Decimal("17.75"), Decimal("0.1"), Decimal("-0.5"), Decimal("NaN"),
+]
 INT_EDGE = sorted({v for k in range(0, 33) for v in (2**k - 1, 2**k, 2**k + 1)} | {-1, -2, -(2**31), 250, 251, 254, 255})
 
 
@@ -87,7 +94,7 @@ def _ga_lists(rng):
 def _domain(token, rng, full):
     """Values for one declared type token, all *of that type*."""
     if token == "int":
-        return INT_FULL if full else INT_EDGE + [rng.randrange(0, 4099) for _ in range(120)]
+        return (INT_FULL if full else INT_EDGE + [rng.randrange(0, 4099) for _ in range(120)]) + NON_INTEGRAL
     if token == "bytes":
         return _bytes_domain(rng)
     if token == "bool":
@@ -131,6 +138,8 @@ def pack_value(v):
         return {"t": type(v).__name__, "v": v}
     if isinstance(v, (bytes, bytearray)):
         return {"t": "bytes", "v": bytes(v).hex()}
+    if isinstance(v, (float, Fraction, Decimal)):
+        return {"t": type(v).__name__, "v": str(v)}
     if isinstance(v, Enum):
         return {"t": type(v).__name__, "v": v.value}
     if isinstance(v, (IndividualAddress, GroupAddress)):
@@ -152,6 +161,8 @@ def unpack_value(d):
         return v
     if t == "bytes":
         return bytes.fromhex(v)
+    if t in ("float", "Fraction", "Decimal"):
+        return {"float": float, "Fraction": Fraction, "Decimal": Decimal}[t](v)
     if t == "ReturnCode":
         return ReturnCode(v)
     if t == "IndividualAddress":
@@ -235,6 +246,8 @@ def describe_difference(obj, back, path):
         if len(got) < len(orig):
             return "truncated"
         return "altered"
+    if isinstance(orig, (float, Fraction, Decimal)):
+        return "non-integral-value-truncated"
     if isinstance(orig, int) and not isinstance(orig, bool):
         return "wrapped-or-masked"
     return "altered"
